@@ -176,12 +176,14 @@ bool DepfileParser::Parse(string* content, string* err) {
       StringPiece piece = StringPiece(filename, len);
       // If we've seen this as an input before, skip it.
       std::vector<StringPiece>::iterator pos = std::find(ins_.begin(), ins_.end(), piece);
+      if (is_dependency && poisoned_input) {
+        // A dependency that reappears as a target must not have dependencies
+        // of its own, whether or not they were seen before.
+        *err = "inputs may not also have inputs";
+        return false;
+      }
       if (pos == ins_.end()) {
         if (is_dependency) {
-          if (poisoned_input) {
-            *err = "inputs may not also have inputs";
-            return false;
-          }
           // New input.
           ins_.push_back(piece);
         } else {
@@ -190,7 +192,7 @@ bool DepfileParser::Parse(string* content, string* err) {
             outs_.push_back(piece);
         }
       } else if (!is_dependency) {
-        // We've passed an input on the left side; reject new inputs.
+        // We've passed an input on the left side; reject its inputs.
         poisoned_input = true;
       }
     }
